@@ -8,5 +8,6 @@ CONSTANTS
   Classes = {"none", "field", "id", "splice", "forge"}
   Entries = {"payload", "header"}
   Dropped = {"bind_aclhead"}
+  Lenient = {}
 INVARIANT Inv
 CHECK_DEADLOCK FALSE
